@@ -900,3 +900,280 @@ def config_sweep(repo, seed=0, n=120):
 
 
 CHILDREN.update({"config_sweep": config_sweep})
+
+
+# ------------------------------------------------------------------------------------------------
+def rest_bridge(repo, seed=0, n=12):
+    """C19 bounded: the real REST scheduler with requests.post replaced by an in-process external scheduler that sees only
+    the JSON payload (round-tripped through json.dumps/loads).  Every call's payload is compared with the true state, the
+    protocol promises are checked call by call, the decisions returned are compared with the reply, and the run's statistics
+    are compared with an in-process replay of the same decisions."""
+    import json as _json, math, random, copy
+    sys.path.insert(0, repo)
+    logging.disable(logging.CRITICAL)
+    import eudoxia.simulator as sim
+    import eudoxia.scheduler.rest as rest
+    from eudoxia.scheduler import decorators as dec
+    from eudoxia.executor.container import Container
+    from eudoxia.executor.assignment import Assignment, Suspend
+    from eudoxia.workload.runtime_status import OperatorState
+    from eudoxia.utils import Priority
+    FORBIDDEN = {"baseline_cpu_seconds", "storage_read_gb", "memory_gb", "segments", "cpu_scaling", "scaling_func", "values"}
+    problems = []
+    cov = {"calls": 0, "assignments": 0, "suspensions": 0, "pipelines": 0, "reported_complete": 0, "idle_ticks_without_call": 0}
+    real_post = rest.requests.post
+    real_rest = dec.SCHEDULING_ALGOS["rest"]
+    rng = random.Random(seed)
+
+    def forbidden_keys(x, path=""):
+        out = []
+        if isinstance(x, dict):
+            for k, v in x.items():
+                if k in FORBIDDEN:
+                    out.append(path + "/" + k)
+                out += forbidden_keys(v, path + "/" + str(k))
+        elif isinstance(x, list):
+            for i, v in enumerate(x):
+                out += forbidden_keys(v, path + f"[{i}]")
+        return out
+
+    for case in range(n):
+        tps = rng.choice([1, 10, 100, 400, 1000])
+        poll = rng.choice([0.0025, 0.004, 0.29, 0.5, 1.0, 2.0])
+        params = dict(duration=rng.choice([20, 60, 150]) if tps <= 10 else rng.choice([2, 6]) if tps <= 100 else rng.choice([0.5, 2]), ticks_per_second=tps,
+                      scheduler_algo="rest", num_pools=rng.choice([1, 2]), cpus_per_pool=rng.choice([4, 16]), ram_gb_per_pool=rng.choice([64, 300, 1000]),
+                      multi_operator_containers=rng.random() < 0.6, random_seed=rng.randint(0, 10**6), rest_poll_interval=poll,
+                      waiting_seconds_mean=rng.choice([0.3, 1.5, 4.0]), num_pipelines=rng.choice([1, 2]), num_operators=rng.choice([2, 4]),
+                      interactive_prob=0.3, query_prob=0.3, batch_prob=0.4)
+        prng = random.Random(rng.randint(0, 10**6))
+        st = {"calls": [], "tick": 0, "seen": {}, "complete_reported": {}, "last_call_tick": None, "decisions": [], "sched": None}
+
+        def policy(payload):
+            """external scheduler: sees the JSON only"""
+            asg, used = [], set()
+            pipes = payload["new_pipelines"] + payload["other_pipelines"]
+            for pool in payload["pools"]:
+                cpu, ram = pool["avail_cpu"], pool["avail_ram_gb"]
+                for _slot in range(3):
+                    if cpu < 1 or ram <= 2:
+                        break
+                    for p in pipes:
+                        if p["is_complete"] or p["has_failures"] or p["pipeline_id"] in used:
+                            continue
+                        ops = p["operators"]
+                        if params["multi_operator_containers"] and all(o["state"] == "pending" for o in ops):
+                            chosen = ops                                    # the whole untouched pipeline, in DAG order
+                        else:
+                            chosen = [o for o in ops if o["state"] == "pending" and o["parents_complete"]][:1]
+                        if not chosen:
+                            continue
+                        used.add(p["pipeline_id"])
+                        if params["multi_operator_containers"] and prng.random() < 0.35:
+                            # one container may mix operators of several pipelines: append another untouched pipeline's operators
+                            for p2 in pipes:
+                                if p2["pipeline_id"] not in used and not p2["is_complete"] and not p2["has_failures"] \
+                                        and all(o["state"] == "pending" for o in p2["operators"]):
+                                    chosen = list(chosen) + p2["operators"]
+                                    used.add(p2["pipeline_id"])
+                                    break
+                        c_, r_ = max(1, int(cpu) // prng.choice([1, 2, 4])), ram / prng.choice([1, 2, 4])
+                        if ram >= 60:
+                            r_ = max(60, r_)          # enough for the generator's prototypes most of the time
+                        asg.append({"operator_ids": [o["id"] for o in chosen], "cpu": c_, "ram_gb": r_,
+                                    "priority": p["priority"], "pool_id": pool["pool_id"], "is_resume": False, "force_run": False})
+                        cpu -= c_; ram -= r_
+                        break
+            return {"assignments": asg, "suspensions": st.get("pending_suspensions", [])}
+
+        class Resp:
+            def __init__(self, data):
+                self.data = data
+            def raise_for_status(self):
+                pass
+            def json(self):
+                return self.data
+
+        def fake_post(url, json=None, **kw):
+            if url.endswith("/init"):
+                _json.dumps(json, default=str)
+                return Resp({})
+            payload = _json.loads(_json.dumps(json))          # what would travel over the wire
+            # the true operator states at the moment of the call (parsing the reply changes them: PENDING -> ASSIGNED)
+            snap = {}
+            for pid_, real in st["seen"].items():
+                rs = real.runtime_status()
+                snap[pid_] = [(rs.operator_states[o].value, all(rs.operator_states[q] == OperatorState.COMPLETED for q in o.parents)) for o in real.values]
+            st["snap"] = snap
+            reply = policy(payload)
+            st["calls"].append((st["tick"], payload, reply))
+            return Resp(_json.loads(_json.dumps(reply)))
+
+        def wrapped(s, results, pipelines):
+            st["sched"] = s
+            st["tick"] += 1
+            for p in pipelines:
+                st["seen"][p.pipeline_id] = p
+            # admissible suspensions are chosen by the harness from the true state (the external scheduler may send any admissible one)
+            st["pending_suspensions"] = []
+            if prng.random() < 0.6:
+                for pool in s.executor.pools:
+                    for c in pool.active_containers:
+                        cov["boundary_seen"] = cov.get("boundary_seen", 0) + (1 if c.can_suspend_container() else 0)
+                        if c.can_suspend_container() and prng.random() < 0.7:
+                            st["pending_suspensions"].append({"container_id": c.container_id, "pool_id": pool.pool_id})
+            before = len(st["calls"])
+            sus, asg = real_rest(s, results, pipelines)
+            called = len(st["calls"]) > before
+            t = st["tick"]
+            if (pipelines or results) and not called:
+                problems.append(("no-call-although-something-arrived-or-finished", case, t))
+            if called and not (pipelines or results) and st["last_call_tick"] is not None:
+                if (t - st["last_call_tick"]) / tps < poll - 1e-12:
+                    problems.append(("idle-call-before-the-poll-interval", case, t, st["last_call_tick"], tps, poll))
+            if not called:
+                if sus or asg:
+                    problems.append(("decisions-without-a-call", case, t))
+                st["decisions"].append((t, [], []))
+                return sus, asg
+            st["last_call_tick"] = t
+            _tk, payload, reply = st["calls"][-1]
+            fk = forbidden_keys(payload)
+            if fk:
+                problems.append(("payload-reveals-resource-needs", case, fk[:3]))
+            if payload["tick"] != s.current_tick or abs(payload["sim_time_seconds"] - s.current_tick / tps) > 1e-12:
+                problems.append(("payload-tick-or-time", case, payload["tick"], s.current_tick))
+            # results of the last tick
+            want = [{"ops": [str(o.id) for o in r.ops], "cpu": r.cpu, "ram": r.ram, "priority": r.priority.name, "pool_id": r.pool_id,
+                     "container_id": r.container_id, "error": r.error} for r in results]
+            if payload["results"] != _json.loads(_json.dumps(want)):
+                problems.append(("payload-results-differ", case, t))
+            # pools and containers
+            for pool, pj in zip(s.executor.pools, payload["pools"]):
+                truth = {"pool_id": pool.pool_id, "avail_cpu": pool.avail_cpu_pool, "avail_ram_gb": pool.avail_ram_pool, "max_cpu": pool.max_cpu_pool,
+                         "max_ram_gb": pool.max_ram_pool, "consumed_ram_gb": pool.consumed_ram_gb}
+                for k, v in truth.items():
+                    if pj.get(k) != v:
+                        problems.append(("payload-pool-figure-differs:" + k, case, t, pj.get(k), v))
+                for lst, key in ((pool.active_containers, "active_containers"), (pool.suspending_containers, "suspending_containers"),
+                                 (pool.suspended_containers, "suspended_containers")):
+                    got = [(c["container_id"], c["cpu"], c["ram_gb"], c["current_memory_gb"], c["priority"], tuple(c["operator_ids"])) for c in pj[key]]
+                    exp = [(c.container_id, c.assignment.cpu, c.assignment.ram, c.get_current_memory_usage(), c.priority.name,
+                            tuple(str(o.id) for o in c.operators)) for c in lst]
+                    if got != exp:
+                        problems.append(("payload-container-list-differs:" + key, case, t))
+            if len(payload["pools"]) != len(s.executor.pools):
+                problems.append(("payload-pool-count", case, t))
+            # pipelines: new and other disjoint, operator states true, completion reported once
+            new_ids = [p["pipeline_id"] for p in payload["new_pipelines"]]
+            other_ids = [p["pipeline_id"] for p in payload["other_pipelines"]]
+            if set(new_ids) & set(other_ids) or len(set(new_ids)) != len(new_ids) or len(set(other_ids)) != len(other_ids):
+                problems.append(("new-and-known-pipelines-overlap", case, t))
+            if sorted(new_ids) != sorted(p.pipeline_id for p in pipelines):
+                problems.append(("new-pipelines-not-the-arrivals", case, t))
+            for pj in payload["new_pipelines"] + payload["other_pipelines"]:
+                real = st["seen"].get(pj["pipeline_id"])
+                if real is None:
+                    problems.append(("unknown-pipeline-in-payload", case, t)); continue
+                rs = real.runtime_status()
+                ops = list(real.values)
+                if [o["id"] for o in pj["operators"]] != [str(o.id) for o in ops]:
+                    problems.append(("payload-operators-differ", case, t)); continue
+                for oj, (sv, pc) in zip(pj["operators"], st["snap"][pj["pipeline_id"]]):
+                    if oj["state"] != sv or oj["parents_complete"] != pc:
+                        problems.append(("payload-operator-state-differs", case, t, oj["state"], sv))
+                done = all(sv == OperatorState.COMPLETED.value for sv, _pc in st["snap"][pj["pipeline_id"]])
+                if pj["is_complete"] != done or pj["priority"] != real.priority.name:
+                    problems.append(("payload-pipeline-flags-differ", case, t))
+                if pj["is_complete"]:
+                    st["complete_reported"][pj["pipeline_id"]] = st["complete_reported"].get(pj["pipeline_id"], 0) + 1
+                    if st["complete_reported"][pj["pipeline_id"]] > 1:
+                        problems.append(("completed-pipeline-reported-again", case, t, pj["pipeline_id"]))
+            # every incomplete pipeline seen so far must still be told to the scheduler
+            for pid_, real in st["seen"].items():
+                done = all(v == OperatorState.COMPLETED for v in real.runtime_status().operator_states.values())
+                if not done and pid_ not in new_ids and pid_ not in other_ids:
+                    problems.append(("unfinished-pipeline-missing-from-payload", case, t, pid_))
+            # decisions executed exactly as given
+            if len(sus) != len(reply["suspensions"]) or any((x.container_id, x.pool_id) != (y["container_id"], y["pool_id"]) for x, y in zip(sus, reply["suspensions"])):
+                problems.append(("suspensions-not-as-given", case, t))
+            if len(asg) != len(reply["assignments"]):
+                problems.append(("assignments-not-as-given", case, t))
+            for a, y in zip(asg, reply["assignments"]):
+                if ([str(o.id) for o in a.ops], a.cpu, a.ram, a.priority.name, a.pool_id, a.is_resume, a.force_run) != \
+                        (y["operator_ids"], y["cpu"], y["ram_gb"], y["priority"], y["pool_id"], y["is_resume"], y["force_run"]):
+                    problems.append(("assignments-not-as-given", case, t))
+            # record for the in-process replay: operators by (pipeline id, position)
+            rec = []
+            for a in asg:
+                pos = [(o.pipeline.pipeline_id, list(o.pipeline.values).index(o)) for o in a.ops]
+                rec.append((a.ops[0].pipeline.pipeline_id, pos, a.cpu, a.ram, a.priority, a.pool_id, a.is_resume, a.force_run))
+            st["decisions"].append((t, [(x.container_id, x.pool_id) for x in sus], rec))
+            return sus, asg
+
+        rest.requests.post = fake_post
+        dec.SCHEDULING_ALGOS["rest"] = wrapped
+        Container.next_container_num = 1
+        try:
+            try:
+                stats1 = sim.run_simulator(dict(params))
+            except Exception as e:
+                problems.append(("rest-run-raised", case, repr(e)[:200]))
+                continue
+        finally:
+            rest.requests.post = real_post
+            dec.SCHEDULING_ALGOS["rest"] = real_rest
+        for pid_, real in st["seen"].items():
+            done = all(v == OperatorState.COMPLETED for v in real.runtime_status().operator_states.values())
+            # a pipeline that completed before the last call must have been reported complete exactly once
+            if done and st["complete_reported"].get(pid_, 0) > 1:
+                problems.append(("completed-pipeline-reported-again", case, pid_))
+        # ---- the same decisions made by an in-process scheduler ------------------------------------------
+        decisions = {t: (sus, rec) for t, sus, rec in st["decisions"]}
+        rp = {"tick": 0, "seen": {}}
+
+        def replay_init(s):
+            pass
+
+        def replay(s, results, pipelines):
+            rp["tick"] += 1
+            for p in pipelines:
+                rp["seen"][p.pipeline_id] = p
+            sus, rec = decisions.get(rp["tick"], ([], []))
+            out = []
+            for pid_, pos, cpu, ram, prio, pool_id, is_resume, force_run in rec:
+                out.append(Assignment(ops=[list(rp["seen"][q].values)[i] for q, i in pos], cpu=cpu, ram=ram, priority=prio, pool_id=pool_id, pipeline_id=pid_,
+                                      is_resume=is_resume, force_run=force_run))
+            return [Suspend(cid, pl) for cid, pl in sus], out
+        dec.SCHEDULING_ALGOS["replay-c19"] = replay
+        dec.INIT_ALGOS["replay-c19"] = replay_init
+        Container.next_container_num = 1
+        try:
+            stats2 = sim.run_simulator(dict(params, scheduler_algo="replay-c19"))
+        except Exception as e:
+            problems.append(("in-process-replay-raised", case, repr(e)[:200]))
+            continue
+        finally:
+            dec.SCHEDULING_ALGOS.pop("replay-c19", None)
+            dec.INIT_ALGOS.pop("replay-c19", None)
+        d1, d2 = _json.dumps(stats1.to_dict(), sort_keys=True), _json.dumps(stats2.to_dict(), sort_keys=True)
+        if d1 != d2:
+            problems.append(("statistics-differ-from-in-process-run", case, d1[:150], d2[:150]))
+        cov["calls"] += len(st["calls"])
+        cov["assignments"] += sum(len(r) for _t, _s, r in st["decisions"])
+        cov["suspensions"] += sum(len(x) for _t, x, _r in st["decisions"])
+        cov["pipelines"] += len(st["seen"])
+        cov["reported_complete"] += len(st["complete_reported"])
+        cov["idle_ticks_without_call"] += sum(1 for _t, x, r in st["decisions"] if not x and not r) 
+        st["calls"].clear()
+    kinds = {}
+    for pb in problems:
+        kinds[pb[0]] = kinds.get(pb[0], 0) + 1
+    first = {}
+    for pb in problems:
+        first.setdefault(pb[0], pb)
+    return {"name": "bounded:rest-bridge", "exercised": cov, "ok": not problems, "bounded": f"{n} runs of the real REST scheduler against an in-process external scheduler (HTTP layer replaced)",
+            "cases": n, "kinds": kinds, "finding_kinds": sorted(kinds), "witness": [list(map(str, p))[:6] for p in list(first.values())[:3]],
+            "detail": "payloads truthful, protocol promises kept, decisions executed as given, statistics equal the in-process run" if not problems else str(kinds)}
+
+
+CHILDREN.update({"rest_bridge": rest_bridge})
